@@ -141,4 +141,36 @@ def CL.recv (s : CL) (ip : IP) (zone : String) (port : Int) (len : Nat) (now : I
   else if s.readPort != port then (s, false)
   else ({ s with last := now, delivered := (len, port) :: s.delivered }, true)
 
+/-! ## the client listener between `start()` and `stop()`
+
+PAUSE / TEARDOWN stop the read loop (`stop()`: the read deadline expires, the goroutine ends); the
+socket stays bound, so datagrams that arrive meanwhile wait in the socket and are looked at – with the
+same filter and the clock of that moment – only after the next `start()`. -/
+
+structure QD where
+  ip   : IP
+  zone : String
+  port : Int
+  len  : Nat
+deriving DecidableEq, Repr
+
+structure CLQ where
+  cl      : CL
+  running : Bool := true
+  queue   : List QD := []      -- oldest first
+deriving DecidableEq, Repr
+
+/-- a datagram reaches the socket -/
+def CLQ.deliver (q : CLQ) (ip : IP) (zone : String) (port : Int) (len : Nat) (now : Int) : CLQ × Option Bool :=
+  if q.running then
+    let (s, acc) := q.cl.recv ip zone port len now
+    ({ q with cl := s }, some acc)
+  else ({ q with queue := q.queue ++ [⟨ip, zone, port, len⟩] }, none)
+
+def CLQ.stop (q : CLQ) : CLQ := { q with running := false }
+
+/-- `start()`: the new read loop first drains what is waiting -/
+def CLQ.start (q : CLQ) (now : Int) : CLQ :=
+  { cl := q.queue.foldl (fun s d => (s.recv d.ip d.zone d.port d.len now).1) q.cl, running := true, queue := [] }
+
 end Rtsp.Peer
